@@ -14,6 +14,15 @@ sys.path.insert(0, REPO)
 def main():
     rec = json.load(open(sys.argv[1]))
     if 'obligation' in rec and 'case' not in rec:
+        if rec.get('property') == 'C19':
+            from vlib.cy import check as cy
+            r = cy.run('quick', 0)
+            bad = [f for f in r['fails'] if f['obligation'] == rec['obligation'] or f['site'] == rec.get('site')]
+            if bad:
+                print(f"REPRODUCED property=C19 obligation {bad[0]['obligation']}: {bad[0]['detail']}\n(source-level finding: the extension cannot be built here)")
+                return 1
+            print('not reproduced: the obligation is discharged on this tree')
+            return 0
         from vlib.vc import run as vcrun
         return vcrun.replay_obligation(rec)
     from vlib import harness
